@@ -1,5 +1,6 @@
 SPECIFICATION Spec
 CONSTANTS
   Depth = 3
+  Wide = FALSE
 INVARIANTS Agree EmitInv
 CHECK_DEADLOCK FALSE
